@@ -115,7 +115,7 @@ package animation
 //@ func (d *AnimDecoder) compositeFrame
 //@   property C09
 //@   requires d != nil && f != nil && d.currFrame != nil
-//@   modifies *
+//@   modifies d.currFrame.Pix[:]
 //@   loop 0: invariant rect.Min.Y <= y
 //@   loop 1: invariant rect.Min.X <= x && rect.Min.Y <= y && y < rect.Max.Y
 //@   callsite NRGBAAt#0: assert arg1 == x - f.OffsetX && arg2 == y - f.OffsetY
@@ -132,3 +132,48 @@ package animation
 //@   trusted
 //@   modifies nothing
 //@   ensures result != nil
+//
+// ---- C09: which frame's disposal is applied, where, and with what ----
+//
+// Dispose-to-background clears exactly the frame's own rectangle (offset and
+// size of the frame, not of its image at the origin) to transparent black.
+//@ func applyDispose
+//@   property C09
+//@   requires canvas != nil && f != nil
+//@   modifies *
+//@   abstract fillRect
+//@   callsite fillRect: assert f.Dispose == DisposeBackground && arg0 == canvas
+//@   callsite fillRect: assert arg1.Min.X == f.Bounds().Min.X && arg1.Min.Y == f.Bounds().Min.Y && arg1.Max.X == f.Bounds().Max.X && arg1.Max.Y == f.Bounds().Max.Y
+//@   callsite fillRect: assert arg2.R == 0 && arg2.G == 0 && arg2.B == 0 && arg2.A == 0
+//
+// fillRect writes the given colour, and only at positions inside both the
+// requested rectangle and the canvas. (`nosafety`: that SetNRGBA's pixel offset
+// lies inside Pix needs the image's Stride/Pix well-formedness, a non-linear
+// fact outside the solvers' reach; it is assumed.)
+//@ func fillRect
+//@   property C09
+//@   nosafety
+//@   requires canvas != nil
+//@   modifies *
+//@   loop 0: invariant rect.Min.Y <= y
+//@   loop 1: invariant rect.Min.X <= x && rect.Min.Y <= y && y < rect.Max.Y
+//@   callsite SetNRGBA: assert arg0 == canvas && arg1 == x && arg2 == y && arg3 == c
+//@   callsite SetNRGBA: assert old(rect).Min.X <= x && x < old(rect).Max.X && old(rect).Min.Y <= y && y < old(rect).Max.Y
+//@   callsite SetNRGBA: assert canvas.Rect.Min.X <= x && x < canvas.Rect.Max.X && canvas.Rect.Min.Y <= y && y < canvas.Rect.Max.Y
+//
+// One step of playback: a key frame starts from a cleared canvas, any other
+// frame from the previous canvas after ITS disposal; the frame drawn is frame
+// number pos; afterwards that same frame's disposal is applied to the copy
+// kept for the next step. (`nosafety`: image.NewNRGBA's size check and the
+// Pix accesses depend on the canvases' well-formedness, which is assumed.)
+//@ func (d *AnimDecoder) NextFrame
+//@   property C09
+//@   nosafety
+//@   requires d != nil && d.anim != nil && d.currFrame != nil && d.prevFrameDisposed != nil && 0 <= d.pos
+//@   requires d.anim.CanvasWidth > 0 && d.anim.CanvasHeight > 0
+//@   modifies *
+//@   abstract applyDispose
+//@   callsite clearCanvas: assert keyFrame && arg0 == d.currFrame
+//@   callsite compositeFrame: assert arg0 == d && arg1 == f
+//@   callsite applyDispose: assert arg0 == d.prevFrameDisposed && arg0 == old(d.prevFrameDisposed) && arg1 == f
+//@   ensures result2 == nil ==> d.pos == old(d.pos) + 1
